@@ -196,7 +196,7 @@ func H_c14w(p []int) {
 	vAssume(vAnd(vAnd(c != 'T', c != 'p'), c != 'w'))
 	d += string([]byte{c})
 	bs := vBytes(p[3])
-	vAssume(validUTF8(bs))
+	vAssumeValidUTF8(bs)
 	s := string(bs)
 	x := c14Operand(p[2], s)
 	vSite(fmt.Sprintf("wrappers width=%d prec=%d operand=%d", c14Widths[p[0]], c14Precs[p[1]], p[2]))
